@@ -313,10 +313,13 @@ def construct_models_in_parallel(sample, chr_id, dump_filename, args, read_group
             tmp_extended_gff_printer.dump(gene_info, all_models)
         aggregator.transcript_model_global_counter.dump()
         transcript_stat_counter.dump(transcript_stat_file)
+    # all per-chromosome output files must be complete before the chromosome is marked as processed
+    read_stat_counter = aggregator.read_stat_counter
+    del aggregator, tmp_gff_printer, tmp_extended_gff_printer, sqanti_t2t_printer
     logger.info("Finished processing chromosome " + chr_id)
     open(lock_file, "w").close()
 
-    return aggregator.read_stat_counter, transcript_stat_counter
+    return read_stat_counter, transcript_stat_counter
 
 
 class ReadAssignmentAggregator:
